@@ -2,6 +2,6 @@
 Require Extraction.
 Require Import ExtrOcamlBasic.
 From Coq Require Import ZArith.
-From WS Require Import Base.Words Model.Mask.
+From WS Require Import Base.Words Model.Mask Model.MaskAsm.
 Extraction Language OCaml.
-Extraction "model.ml" BinInt.Z.add Mask.maskGo Mask.mask_spec Mask.rotk Mask.mask_piece.
+Extraction "model.ml" BinInt.Z.add Mask.maskGo Mask.mask_spec Mask.rotk Mask.mask_piece MaskAsm.maskAsm_amd64.
